@@ -80,7 +80,7 @@ CostG(t, ids, lk) ==
                         \* RowMapping.to_mapping returns self for the same unique key
                         IF c.kind = "map" /\ t.t.k = "un" /\ t.t.op.o = "dedup" THEN c
                         ELSE [ex |-> AddBag(c.ex, c.it), it |-> ZeroBag(ids), kind |-> "map"]
-                  [] t.op.o = "sort" ->
+                  [] t.op.o \in {"sort", "cust"} ->     \* (the harness engine evaluates extension operations eagerly)
                         [ex |-> AddBag(c.ex, c.it), it |-> ZeroBag(ids), kind |-> "seq"])
            [] t.k = "bin" ->
                 LET l == CostG(t.l, ids, lk)  r == CostG(t.r, ids, lk) IN
